@@ -99,6 +99,21 @@ def specs(ctx, n):
         elif rng.random() < 0.3:       # call-index dependent results (not deterministic): the record must still be faithful
             tot = sum(c["n_iter"] for c in sp["calls"])
             sp["script"] = [(float(rng.randint(-5, 5)), ({"m0": rng.randint(0, 9)} if rng.random() < 0.5 else None)) for _ in range(tot)]
+        if i < 4:
+            # targeted: a warm-start frame covering EVERY point of a small space, each with its own score, its rows shuffled (index labels
+            # permuted as after sort_values / sample): every row of search_data must carry the score of its own parameter set
+            import pandas as pd
+            sp = dunit.general_spec(rng, name, max_calls=1, metrics=0, nonfinite=0, sizes=(2, 3), max_points=9, n_max=14, memory=True)
+            if name in ("GeneticAlgorithmOptimizer", "DifferentialEvolutionOptimizer"):
+                sp["cfg"] = {k: v for k, v in (sp["cfg"] or {}).items() if k != "population"}
+            nm_ = list(sp["space"].keys())
+            allp = gen.all_positions(sp["space"])
+            df = pd.DataFrame([dict({n_: sp["space"][n_][j_] for n_, j_ in zip(nm_, p_)}, score=float(100 + 7 * k_)) for k_, p_ in enumerate(allp)])
+            perm = list(range(len(df)))
+            if len(perm) > 1:
+                while perm == list(range(len(df))):
+                    rng.shuffle(perm)
+            sp["calls"][0].update(memory=True, memory_warm_start=df.iloc[perm], n_iter=max(8, sp["calls"][0]["n_iter"]))
         out.append(sp)
     return out
 
